@@ -103,7 +103,7 @@ Theorem C11_stored_paths_simple : forall cf k ops n ns e,
 Proof. exact stored_paths_simple. Qed.
 Print Assumptions C11_stored_paths_simple.
 
-(** The code BEFORE commit 0d4c0f2 violated the last clause: a replayed advertisement (seen-by = [replayer]) was forwarded by an agent already on its path, and a further agent stored the path [1;3;2;1;0]. *)
+(** The code BEFORE commit cf30533 violated the last clause: a replayed advertisement (seen-by = [replayer]) was forwarded by an agent already on its path, and a further agent stored the path [1;3;2;1;0]. *)
 Theorem C11_refuted_pre_fix_replayed_path :
   exists ops, In [1; 3; 2; 1; 0] (map e_path (entries_pre [] 5 ops 4)).
 Proof. exact C11_pre_fix_replayed_path_revisits. Qed.
